@@ -53,6 +53,21 @@ def corpus(rep):
     for lab, m in readcheck.havoc(frag, rng, 150 if quick else 1500) + readcheck.truncations(frag, 11 if quick else 1):
         cases.append(("frag:" + lab, {"data": init, "frag": m}))
     cases += readcheck.trun_bombs(init)[::3]
+    # generated fragmented movies (several track fragments of one track in a movie fragment, missing trun / tfdt, three base modes),
+    # as one stream and as init + media segment, with boundary substitutions into every field of the moof boxes
+    for name, finit, m1, m0, fields in readcheck.valid_fragmented(rng, 6 if quick else 40):
+        cases.append((name, {"data": finit + m1}))
+        cases.append((name + ":seg", {"data": finit, "frag": m0}))
+        for off, width, role, path in fields:
+            for v in (readcheck.BOUNDARY if not quick else rng.sample(readcheck.BOUNDARY, 2)):
+                vv = v % (1 << (8 * width))
+                if m0[off:off + width] == vv.to_bytes(width, "big"):
+                    continue
+                lab = "%s:%s@%d=%x" % (name, path + ":" + role, off, vv)
+                if rng.random() < 0.5:
+                    cases.append((lab, {"data": finit, "frag": readcheck.substitute(m0, off, width, vv)}))
+                else:
+                    cases.append((lab + ":1", {"data": finit + readcheck.substitute(m1, off, width, vv)}))
     return cases
 
 
@@ -92,7 +107,8 @@ def check(rep):
     rep.coverage.update({"evaluations": 2 * len(cases), "distinct_nontrivial": len(distinct),
                          "rule": "canned files + generated valid movies; single boundary-value substitution {0,1,7,8,15,16,2^16-1,2^31-1,2^31,2^32-1,2^63,2^64-1} into every "
                                  "length/count/offset/version/flag/size field of the renderer's field map, pairwise substitutions, truncation, byte havoc (overwrite/delete/insert/copy), "
-                                 "wrong declared lengths, mutated media segments opened against the init segment; every public read-side call incl. to_json/summary; debug and release; "
+                                 "wrong declared lengths, mutated media segments opened against the init segment; generated fragmented movies (repeated tracks inside a movie fragment, "
+                                 "track fragments without trun/tfdt, three base modes) with boundary substitutions into every moof field; every public read-side call incl. to_json/summary; debug and release; "
                                  "non-trivial = distinct inputs on which read_header returned Ok or a data error (i.e. parsed past the first header)",
                          "input_distribution": stats})
     rep.coverage["samples"] = [{"case": cases[i][0], "file_hex_prefix": cases[i][1]["data"].hex()[:160]} for i in (10, len(cases) // 2, len(cases) - 1)]
